@@ -10,7 +10,7 @@ from .. import common, gen, oracle, sexp, translate
 from ..common import Ctx
 
 MODULE = "GotranxProofs.Properties.C01 GotranxProofs.GenValid"
-THEOREMS = ["Gx.GenValid.genRhs_valid", "Gx.GenValid.genRhs_correct", "Gx.Kahn.staticOrder_correct", "Gx.GenValid.sorted_facts", "Gx.C01.rhs_sound", "Gx.C01.rhs_progress", "Gx.C01.eval_cond_true", "Gx.C01.eval_cond_false",
+THEOREMS = ["Gx.GenValid.genRhs_valid", "Gx.GenValid.checkModelWF_sound", "Gx.GenValid.genRhs_correct", "Gx.Kahn.staticOrder_correct", "Gx.GenValid.sorted_facts", "Gx.C01.rhs_sound", "Gx.C01.rhs_progress", "Gx.C01.eval_cond_true", "Gx.C01.eval_cond_false",
             "Gx.C01.eval_rel", "Gx.C01.blend_gt", "Gx.C01.blend_lt", "Gx.checkRhs_sound", "Gx.exec_agree",
             "Gx.exec_progress", "Gx.eval_congr", "Gx.C01.meaning_unique", "Gx.C01.meaning_exists", "Gx.solution_unique", "Gx.denote_stable",
             "Gx.denote_equations"]
@@ -95,6 +95,7 @@ def check_case(ctx: Ctx, case: dict):
                     f"accepted model, but NumPy code generation raised {type(ex).__name__}: {str(ex)[:120]}",
                     case={"text": text}, error=repr(ex))
         return
+    oracle.check_wf(ctx, rm, text)
     funcs, dicts = translate.py_module(code)
     layout = oracle.module_layout(dicts)
     if layout["state"] is None or layout["param"] is None:
